@@ -127,14 +127,18 @@ ProbeVerdict(r, prop) ==
                ELSE IF ~c.reopened THEN V(prop, "the recovered store cannot be reopened after a put")
                ELSE IF \E k \in Keys : c.gets2[k] # m1[k] THEN V(prop, "the recovered store loses data over put + reopen")
                ELSE
-               \* C14: recovery leaves every existing file exactly as it found it; the only call it
-               \* may issue besides read-only opens is the exclusive creation of the next data file
+               \* C14: recovery leaves the bytes of every file it keeps exactly as it found them; the only calls it may
+               \* issue besides read-only opens and fsyncs are the exclusive creation of a new data file and the removal
+               \* of a data or hint file as a whole (what a removal does to the contents is judged by the reads above)
                IF rec.modified_by_recovery # <<>>
                     THEN V("C14", "recovery modified an existing file: " \o rec.modified_by_recovery[1])
                ELSE IF \E i \in 1..Len(rec.recovery_calls) :
                           LET rc == rec.recovery_calls[i]
-                          IN ~(rc.call = "create" /\ rc.kind = "data" /\ rc.excl /\ rc.append /\ ~rc.trunc)
-                    THEN V("C14", "recovery issues a call other than creating the next data file")
+                          IN ~(\/ rc.res < 0
+                               \/ (rc.call = "create" /\ rc.kind = "data" /\ rc.excl /\ rc.append /\ ~rc.trunc)
+                               \/ (rc.call = "unlink" /\ rc.kind \in {"data", "hint"})
+                               \/ rc.call = "fsync")
+                    THEN V("C14", "recovery issues a call other than creating a new data file or removing a whole file")
                ELSE
                \* C14 across crashes: files created by recovery and by continued use
                LET new1 == Pairs(rec.after_open) \ Pairs(rec.before)
@@ -144,8 +148,6 @@ ProbeVerdict(r, prop) ==
                     THEN V("C14", "after a crash, recovery creates a data file whose id the directory already contained")
                   ELSE IF \E p \in new2 : p[1] = "data" /\ \E g \in old \cup {q[2] : q \in new1} : g >= p[2]
                     THEN V("C14", "after a crash, a rollover creates a data file whose id the directory already contained")
-                  ELSE IF Pairs(rec.before) \ Pairs(rec.after_open) # {}
-                    THEN V("C14", "recovery removed files")
                   ELSE OK
 
 \* the aftermath of a probe: the recovered store (after the put and the restart above) is used like any other:
